@@ -214,8 +214,8 @@ theorem per_qubit_attribution {ms : Option Nat} {c : ChanState} (h : ChanInv ms 
 /-- **Per-atom attribution (Global channel, not `all_local`)**: the channel's samples are
 added to the `Global` entry of its basis — i.e. to every atom — at every time from `start_t`
 on (`start_t = 0` outside XY mode or without an SLM mask); before a non-zero `start_t` they
-go to the `Local` entries of exactly the unmasked targets of the first pulse, so masked atoms
-receive nothing while the mask is on. -/
+go to the `Local` entries of exactly the unmasked targets of the first pulse (to none when the
+channel has no pulse), so masked atoms receive nothing while the mask is on. -/
 theorem global_attribution (allLocal : Bool) (m : SlmMask) (k : Nat) (v : ChanView)
     (hb : v.globalBranch allLocal = true) (t : Int) (ht : 0 ≤ t) :
     ((∃ w, (k, w) ∈ attribAt (chanInstrs allLocal m k v) v.basis none t) ↔ startT m v ≤ t) ∧
@@ -388,6 +388,14 @@ example :
     attribAt (chanInstrs false m 0 v) .xy none 104 = [(0, 1)] ∧
     attribAt (chanInstrs true m 0 v) .xy (some 1) 50 = [] ∧
     attribAt (chanInstrs true m 0 v) .xy (some 1) 550 = [(0, 1)] := by decide +kernel
+/-- … and a declared global XY channel without any pulse adds nothing before the mask end
+(`if not cs.slots: continue`, repair of F-C06-2) and goes to `Global` afterwards. -/
+example :
+    let v : ChanView := { (exG.view []) with basis := .xy, slots := [] }
+    let m : SlmMask := { targets := [1], end_ := 104 }
+    attribAt (chanInstrs false m 0 v) .xy (some 0) 50 = [] ∧
+    attribAt (chanInstrs false m 0 v) .xy none 50 = [] ∧
+    attribAt (chanInstrs false m 0 v) .xy none 104 = [(0, 1)] := by decide +kernel
 /-- per_atom_phase_sum / per_atom_phase_single_drive: both channels are written into the `Local`
 entry of atom 1 under `all_local`; the committed rule sums both phases, the repaired rule keeps
 the phase of the channel that drives (at t = 30 the local one, position 1). -/
